@@ -11,7 +11,9 @@
 import math
 import random
 
-from .. import efx, gen, history, tlc, tracecheck
+from datetime import timedelta
+
+from .. import efx, gen, history, simcheck, tlc, tracecheck
 from ..common import work_dir, cleanup, seed_from_env
 from . import c17
 
@@ -166,7 +168,7 @@ def run(tier, out):
         ns = efx.load()
         base = seed_from_env() * 100000
         n_hist, n_edits = (6, 4) if tier == "quick" else (80, 10)
-        events, tid = [], 0
+        events, tid, n_sim = [], 0, 0
         log = efx.EventLog(ns)
         for seed in range(base, base + n_hist):
             rng = random.Random(seed)
@@ -187,6 +189,25 @@ def run(tier, out):
             objs = {n: h.live[n] for n in efx.reachable(h.model)}
             events += system_events(ns, tid, objs, f"seed {seed}")
             out.nontrivial.add(("history", seed))
+            # the same while the values of a what-if simulation are switched on (truncated series, simulated twins)
+            lo, hi, _last = simcheck.period(ns, h.live, h.model)
+            if lo is not None and hi > lo:
+                cands = [(n, a) for n in sorted(objs) for a in h.model[n]["inp"]]
+                for _try in range(6):
+                    n, a = rng.choice(cands)
+                    old = getattr(h.live[n], a)
+                    date = (lo + timedelta(hours=rng.randint(0, max(0, int((hi - lo).total_seconds() // 3600) - 1)))).to_pydatetime()
+                    try:
+                        sim = ns.ModelingUpdate([[old, ns.SourceValue(old.value * 2)]], date)
+                    except Exception:   # noqa: refused simulations are C05 / C06's subject
+                        continue
+                    sim.set_updated_values()
+                    tid += 1
+                    events += system_events(ns, tid, objs, f"seed {seed} simulation-set")
+                    sim.reset_values()
+                    n_sim += 1
+                    out.nontrivial.add(("history+simulation", seed))
+                    break
         log.close()
         # builder classes
         rng = random.Random(base + 3)
@@ -228,7 +249,7 @@ def run(tier, out):
         for e in events[:2]:
             out.sample({"slot": e["slot"], "nodes": e["nodes"][:5]})
         out.extra.update({"rule": "a case = the explanation tree of one calculated attribute; nodes and arithmetic nodes are counted",
-                          "trees": len(events), "nodes": n_nodes, "arithmetic_nodes_re_evaluated": n_arith})
+                          "trees": len(events), "systems_walked_with_simulated_values_switched_on": n_sim, "nodes": n_nodes, "arithmetic_nodes_re_evaluated": n_arith})
         out.assumptions += ["arithmetic faithfulness is decided to 4 significant digits for products and quotients, 7 for sums "
                             "and differences; hourly values are sampled at their first, middle and last hour",
                             "operators other than + - * / (shift, ceil, max, UTC conversion, 'logically dependent on', table "
